@@ -51,10 +51,16 @@ func main() {
 	if err != nil {
 		panic(err)
 	}
-	killFilter, err := (&libseccomp.Builder{Allow: []string{"read", "write", "exit_group", "execve", "brk", "arch_prctl", "set_tid_address",
+	base := []string{"read", "write", "exit_group", "exit", "execve", "brk", "arch_prctl", "set_tid_address",
 		"set_robust_list", "rseq", "prlimit64", "readlinkat", "getrandom", "mprotect", "mmap", "munmap", "openat", "close", "fstat", "newfstatat",
-		"rt_sigaction", "rt_sigprocmask", "uname", "readlink", "open", "lseek", "pread64", "wait4", "futex"},
-		Trace: []string{}, Default: libseccomp.ActionKill}).Build()
+		"rt_sigaction", "rt_sigprocmask", "uname", "readlink", "open", "lseek", "pread64", "wait4", "futex", "clone", "clone3", "madvise", "getpid",
+		"gettid", "sched_yield", "nanosleep", "clock_nanosleep", "sigaltstack", "tgkill"}
+	killFilter, err := (&libseccomp.Builder{Allow: base, Trace: []string{}, Default: libseccomp.ActionKill}).Build()
+	if err != nil {
+		panic(err)
+	}
+	// the same with the marker syscall allowed: a control that the list is enough for the program to run
+	killFilterCtl, err := (&libseccomp.Builder{Allow: append(append([]string{}, base...), "mkdirat"), Trace: []string{}, Default: libseccomp.ActionKill}).Build()
 	if err != nil {
 		panic(err)
 	}
@@ -80,6 +86,9 @@ func main() {
 				f := filter
 				if rc["filter_kill"] == true {
 					f = killFilter
+				}
+				if rc["filter_kill"] == "control" {
+					f = killFilterCtl
 				}
 				r := &ptrace.Runner{Args: []string{hx.Target(), "verdicts", rc["script"].(string), rc["dir"].(string), rc["out"].(string)}, Env: []string{},
 					WorkDir: rc["dir"].(string), Limit: runner.Limit{TimeLimit: 20 * time.Second, MemoryLimit: runner.Size(1 << 30)},
